@@ -393,6 +393,12 @@ fn gen_ops<E: Elt>(rng: &mut Rng) -> Sched<E> {
                 let out = acc * b + c - a;
                 push(&mut s, AluOpKind::HornerAcc, [a, b, c, out], bidx, &mut next_idx);
                 acc = out;
+                // an intermediate accumulator is usually bus-silent (created, read by nobody):
+                // only then may the scheduler pack the step behind the next one
+                if j + 1 < len && rng.chance(7, 8) {
+                    let n = s.prep.len();
+                    s.prep[n - 13 + 10] = F::ZERO;
+                }
             }
         }
         // non-Horner filler (at least one between chains so that runs stay separate)
